@@ -60,6 +60,27 @@ if fn in ("load", "loads", "load_all", "loads_all"):
         print("got     :", norm(got))
         objs = got[1] if isinstance(got[1], list) else [got[1]]
         bad = got[0] != "ok" or (name is not None and any(getattr(o, "name", None) != name for o in objs))
+        if not bad and fn == "load":
+            # the same path is loaded again after the file has been rewritten: the answer must come from the new contents
+            import shutil
+            d = tempfile.mkdtemp()
+            p = os.path.join(d, "drawing.cdxml")
+            shutil.copy(ml.files.parser_demo_cdxml, p)
+            first = ml.load(p, fmt="cdxml", key="benzene", otype="molecule")
+            shutil.copy(ml.files.parser_demo2_cdxml if hasattr(ml.files, "parser_demo2_cdxml") else ml.files.charges_mult_cdxml, p)
+            old_keys = set(ml.CDXMLFile(ml.files.parser_demo_cdxml).keys())
+            new_keys = list(ml.CDXMLFile(p).keys())
+            k2 = [k for k in new_keys if k not in old_keys][0]
+            try:
+                second = ml.load(p, fmt="cdxml", key=k2, otype="molecule")
+                want = ml.Molecule(ml.CDXMLFile(p)[k2])
+                if second.formula != want.formula:
+                    bad = True
+                    print("REPRODUCED: a second load of a rewritten cdxml file still answers from the old contents")
+                    sys.exit(0)
+            except KeyError:
+                print("REPRODUCED: a second load of a rewritten cdxml file raises KeyError for a label of the new file (stale parse kept)")
+                sys.exit(0)
         print("REPRODUCED: cdxml result does not honour the name override / raised" if bad else "not reproduced")
         sys.exit(0 if bad else 1)
     if fn in ("load", "load_all"):
@@ -88,8 +109,24 @@ elif fn == "dump":
         kw["fmt"] = fmt
     if w.get("mode") not in (None, "default"):
         kw["mode"] = w["mode"]
-    if w["target"] == "stream":
+    if w["target"] in ("stream", "writer"):
         s = io.StringIO()
+        if w["target"] == "writer" or True:
+            # also a writable object that is not an io.TextIOBase
+            class W:
+                def __init__(self):
+                    self.buf = []
+
+                def write(self, t):
+                    self.buf.append(t)
+                    return len(t)
+            w2 = W()
+            g2 = outcome(lambda: ml.dump(obj, w2, **kw))
+            e2 = outcome(getattr(obj, f"dumps_{fmt}")) if fmt in ("xyz", "mol2") else ("exc", "ValueError")
+            if e2[0] == "ok" and not (g2[0] == "ok" and "".join(w2.buf) == e2[1]):
+                print("got     :", g2[:2])
+                print("REPRODUCED: dump() into a writable object that is not an io.TextIOBase:", g2[:2])
+                sys.exit(0)
         got = outcome(lambda: ml.dump(obj, s, **kw))
         gtxt = s.getvalue() if not s.closed else "<closed>"
         efmt = fmt
